@@ -132,12 +132,17 @@ package tq
 //@   props C02
 //@   modifies fresh
 //@   ensures result1 == nil ==> result0 != nil && result0.Header != nil && isfresh(result0) && isfresh(result0.Header)
+// C18: sending the request for an action - also the repeat after an
+// authentication error - uses the transfer and the request as they are: nothing
+// of the transfer (its authenticated flag, its actions) is changed on the way.
 //@ func (*basicDownloadAdapter).makeRequest
-//@   assumed
-//@   props C02
+//@   props C02 C18
+//@   requires @inv a != nil && t != nil && req != nil && req.URL != nil && req.Header != nil && a.apiClient != nil
 //@   modifies fresh
-//@   ensures result1 == nil ==> result0 != nil && result0.Body != nil && result0.Header != nil
-//@   ensures result0 != nil ==> result0.Header != nil
+//@   at call (*tq.adapterBase).doHTTP:1 assert arg1__ == t && arg2__ == req
+//@   at call (*tq.basicDownloadAdapter).makeRequest:1 assert arg1__ == t && arg2__ == req
+//@   ensures @assumed result1 == nil ==> result0 != nil && result0.Body != nil && result0.Header != nil
+//@   ensures @assumed result0 != nil ==> result0.Header != nil
 //@ func advanceCallbackProgress
 //@   assumed
 //@   props C02
@@ -458,10 +463,11 @@ package tq
 //@   at call tq.verifyUpload:1 assert arg2__ == t && res != nil && res.StatusCode <= 299 && res.StatusCode != 403
 //@   ensures result == nil ==> verified(t)
 //@ func (*basicUploadAdapter).makeRequest
-//@   assumed
-//@   props C03
-//@   modifies fresh
-//@   ensures result1 == nil ==> result0 != nil && result0.Body != nil && result0.Header != nil
+//@   props C03 C18
+//@   requires @inv a != nil && t != nil && req != nil && req.URL != nil && req.Header != nil && a.apiClient != nil
+//@   modifies fresh, field req.Body, ghost fpath, ghost rrest
+//@   at call (*tq.adapterBase).doHTTP:1 assert arg1__ == t && arg2__ == req
+//@   ensures @assumed result1 == nil ==> result0 != nil && result0.Body != nil && result0.Header != nil
 //@ func (*adapterBase).setContentTypeFor
 //@   assumed
 //@   props C03
@@ -532,7 +538,11 @@ package tq
 //@   loop 1 iter chsent(results) == iter(chsent(results)) + 1
 //@   at send results assert mapval__.Transfer == t && mapval__.Error == nil
 
-// C06: handing a batch to the adapter.  If the adapter cannot be started every
+// C06: handing a batch to the adapter.  Either the collector goroutine is
+// started - it hands every missing/corrupt result and every adapter result to
+// handleTransferResult - or the failed start is reported as an error (and every
+// pending transfer accounted for); there is no third way out.
+// If the adapter cannot be started every
 // pending transfer is accounted for (one error, one Done each); otherwise
 // every "missing/corrupt" result and every result the adapter reports is
 // handed to handleTransferResult, with the retry channel of this batch.
@@ -540,8 +550,10 @@ package tq
 //@   props C06
 //@   requires @inv q != nil && q.wait != nil && !q.wait.abort
 //@   loop 1 iter !iter(q.wait.abort) ==> q.wait.counter == iter(q.wait.counter) - 1
+//@   ensures collstarted(5) == old(collstarted(5)) + 1 || lastbegunerr(0) != nil
 //@ func (*TransferQueue).addToAdapter$1
 //@   props C06
+//@   monitor collstarted[5] := old(collstarted(5)) + 1
 //@   at call (*tq.TransferQueue).handleTransferResult:1 assert arg1__ == res && arg2__ == retries
 //@   at call (*tq.TransferQueue).handleTransferResult:2 assert arg1__ == res && arg2__ == retries
 //@   at call (tq.Adapter).Add:1 assert arg1__ == present
@@ -555,6 +567,7 @@ package tq
 //@   at call (tq.Adapter).Begin:1 assert !q.adapterInProgress
 //@   ensures result == nil ==> q.adapterInProgress
 //@   ensures old(q.adapterInProgress) ==> result == nil
+//@   monitor lastbegunerr[0] := result
 //@ iface (Adapter).Begin
 //@   modifies heap
 //@ iface (Adapter).Name
